@@ -224,11 +224,13 @@ def inventory():
             g = UnitGen(REPO, os.path.join(VERIF, 'units')).generate(u)
             for fid, info in g.fns.items():
                 names[info['path']] = info['binders']
-        shapes = {'__items__': {}, '__sigs__': {}}
+        shapes = {'__items__': {}, '__sigs__': {}, '__fields__': {}}
         for u in ALL_UNITS:
             g = UnitGen(REPO, os.path.join(VERIF, 'units')).generate(u)
             for it in g.items:
                 if re.search(r'\b(struct|enum)\b', it['src_text'].split('{')[0]):
+                    if it.get('fields'):
+                        shapes['__fields__'][it['id']] = it['fields']
                     shapes['__items__'][it['id']] = hashlib.sha256(' '.join(re.sub(r'//[^\n]*', '', it['src_text']).split()).encode()).hexdigest()[:16]
             for fid, info in g.fns.items():
                 shapes['__sigs__'][info['path']] = info['sig_shape']
@@ -407,6 +409,9 @@ def main():
                 continue   # the loop is gone: its invariant is moot, nothing that remains depends on it
             fn_of = r.g.clauses[cid]['fn'] if cid in r.g.clauses else cid.split('.rewrite.')[0].rsplit('.', 1)[0] if '.rewrite.' not in cid else cid.split('.rewrite.')[0]
             shaky.add((u, fn_of))
+        for lf in getattr(r.g, 'lost_functions', []) or []:
+            if lf['mode'] == 'verify' and prop in lf['tags']:
+                undecided.append('%s: function %s is gone from the source; its obligations are moot, what it did is now checked only as part of its callers' % (u, lf['path']))
         for fid, why in (getattr(r, 'demoted', None) or {}).items():
             mine = [cid for cid, c in r.g.clauses.items() if c['fn'] == fid and prop in c['tags']]
             if mine:
@@ -420,7 +425,7 @@ def main():
                 discharged += 1 if ok else 0
                 solver_ms['%s:%s' % (u, fn.split('::', 1)[-1])] = ms
         nver = len([1 for x in r.funcs if x[1] in ('exec', 'proof')])
-        nver += len(getattr(r, 'demoted', None) or {})
+        nver += len(getattr(r, 'demoted', None) or {}) + len([lf for lf in (getattr(r.g, 'lost_functions', []) or []) if lf['mode'] == 'verify'])
         if r.status != 'undecided' and nver < minimums.get(u, 1):
             undecided.append('%s: only %d functions were verified, committed minimum is %d (vacuity guard)' % (u, nver, minimums.get(u, 1)))
         for fid, info in r.g.fns.items():
@@ -593,7 +598,9 @@ def main():
     # functions, vacuity and trusted-base findings stay exit 2.
     partial = False
     if rc == 2 and undecided:
-        soft = [u for u in undecided if "is outside the verifier's subset on this tree" in u or u.startswith('obligations [')]
+        soft = [u for u in undecided if "is outside the verifier's subset on this tree" in u or u.startswith('obligations [')
+                or (u.startswith('kani ') and 'harness does not compile against this tree' in u)
+                or 'is gone from the source; its obligations are moot' in u]
         fb = wit if wit is not None else amb_wit
         searched = (fb is not None and fb.get('status') == 'not-found') or (scen_wit is not None and scen_wit.get('status') == 'not-found' and prop in SCENARIOS)
         if len(soft) == len(undecided) and searched and not os.environ.get('VERIF_STRICT_UNDECIDED'):
